@@ -198,7 +198,8 @@ func runC15(seed int64, tier string, sc *Script) map[string]any {
 			type ref struct{ name, at string }
 			var refs []ref
 			for i := 0; i < nItems; i++ {
-				at := fmt.Sprintf("application/vnd.at%d", i%2)
+				// (artifact types with characters that need query escaping: '+' and '&')
+				at := []string{"application/vnd.at0", "application/vnd.at1+json&x"}[i%2]
 				b := []byte(fmt.Sprintf(`{"schemaVersion":2,"mediaType":%q,"artifactType":%q,"config":{"mediaType":"application/vnd.oci.empty.v1+json","digest":"sha256:44136fa355b3678a1146ad16f7e8649e94fb4fc21fe77e8310c060f61caaff8a","size":2},"layers":[],"subject":{"mediaType":%q,"digest":%q,"size":%d},"annotations":{"i":"x%02d"}}`,
 					ocispec.MediaTypeImageManifest, at, sd.MediaType, sd.Digest, sd.Size, i))
 				d := content.NewDescriptorFromBytes(ocispec.MediaTypeImageManifest, b)
@@ -209,7 +210,7 @@ func runC15(seed int64, tier string, sc *Script) map[string]any {
 			}
 			filter := ""
 			if rng.Intn(2) == 0 {
-				filter = "application/vnd.at1"
+				filter = "application/vnd.at1+json&x"
 			}
 			// expected order: the registry's (by digest); ask the registry model
 			reg.mu.Lock()
